@@ -17,6 +17,8 @@ from pycoin.coins.groestlcoin.Tx import Tx as GrsTx
 from pycoin.coins.bitcoin.SolutionChecker import BitcoinSolutionChecker as BSC
 from pycoin.encoding.bytes32 import to_bytes_32
 
+import c04_history as HIST
+
 PROP = "C04"
 DRIVER = "C04"
 INTERACTIVE = True
@@ -491,6 +493,17 @@ def model_cases(rng, tier):
                 yield Case("%s %s %s %s i%x %s" % (fn, coin, toks, arg(script), idx, hts_arg(hts)),
                            (lambda coin=coin, t=t, entry=entry, script=script, idx=idx, hts=hts:
                             impl_list(coin, t, entry, script, idx, hts)))
+    # histories on one transaction object + one checker object (Model/SighashHistory.v `run`)
+    n_hist = 260 if tier == "quick" else 6000
+    for k in range(n_hist):
+        t, ops = HIST.gen_history(rng, gen_script, wf=(rng.random() < 0.75))
+        coin = COINS[k % 5]
+        other = None
+        if k % 3 == 0:
+            # a second history on ANOTHER class is interleaved on the implementation side; the model runs this one alone
+            other = (COINS[(k // 5 + 1 + k) % 5], HIST.gen_history(rng, gen_script, wf=True)[1])
+        yield Case("history %s %s %s" % (coin, tx_tokens(t), HIST.ops_token(ops)),
+                   (lambda coin=coin, t=t, ops=ops, other=other: "[" + " ".join(HIST.exec_history(build, coin, t, ops, other)) + "]"))
     # the script walks
     n_walk = 2500 if tier == "quick" else 60000
     for k in range(n_walk):
@@ -796,10 +809,64 @@ def prop_cases(rng, tier, use_driver=True):
     n_scen = 120 if tier == "quick" else 900
     n_fad = 1500 if tier == "quick" else 30000
     chunks = 4 if tier == "quick" else 60
+    for pc in _history_cases(rng, tier):
+        yield pc
     for c in range(chunks):
         last = (c == chunks - 1)
         for pc in _prop_chunk(rng, tier, use_driver, n_scen // chunks, n_fad // chunks, extras=(c == 0)):
             yield pc
+
+
+def _hist_inp(coin, t, ops, other=None):
+    d = {"coin": coin, "tx": tx_json(t), "ops": [HIST.op_json(o) for o in ops]}
+    if other:
+        d["other"] = {"coin": other[0], "ops": [HIST.op_json(o) for o in other[1]]}
+    return d
+
+
+def chk_pairs(coin, t, first, seconds):
+    for second in seconds:
+        for ops in ([first, second, first], [second, first]):
+            r = HIST.check_history(sys.modules[__name__], coin, t, ops)
+            if r:
+                r["ops"] = [HIST.op_json(o) for o in ops]
+                return r
+    return None
+
+
+def _history_cases(rng, tier):
+    """digest histories on ONE checker object, interleaved with direct mutations of the transaction, five classes"""
+    me = sys.modules[__name__]
+    n = 400 if tier == "quick" else 8000
+    for k in range(n):
+        t, ops = HIST.gen_history(rng, gen_script, wf=(rng.random() < 0.8))
+        coin = COINS[k % 5]
+        other = None
+        if k % 4 == 0:
+            other = (COINS[(k + 1 + k // 5) % 5], HIST.gen_history(rng, gen_script, wf=True)[1])
+        yield PropCase("history_vs_ref", _hist_inp(coin, t, ops, other),
+                       (lambda coin=coin, t=t, ops=ops, other=other: HIST.check_history(me, coin, t, ops, other)))
+    # exhaustive small domain: every ordered pair of observations (entry x input x hash type) on a 3-in / 3-out and a
+    # 3-in / 2-out transaction
+    for nout in (3, 2):
+        h = lambda b: bytes([b]) * 32
+        t = {"v": 2, "lock": 500123, "ins": [(h(k + 1), 7 * k + 1, b"", 0xFFFFFFF0 + k) for k in range(3)],
+             "outs": [(1000 * (k + 1), bytes([0x51 + k]) * (k + 1)) for k in range(nout)],
+             "uns": [(50000 + k, b"\x00\x14" + bytes([k]) * 20) for k in range(3)]}
+        scripts = [b"\x76\xa9\x14" + bytes([k]) * 20 + b"\x88\xac" for k in range(3)]
+        obs = HIST.pair_histories(t, scripts)
+        for ci, coin in enumerate(COINS):
+            firsts = obs if tier == "thorough" else obs[(ci + nout) % 7::7]
+            for first in firsts:
+                yield PropCase("history_pairs", {"coin": coin, "tx": tx_json(t), "first": HIST.op_json(first), "nout": nout},
+                               (lambda coin=coin, t=t, first=first, obs=obs: chk_pairs(coin, t, first, obs)))
+    # presentations of the same arguments
+    for k in range(60 if tier == "quick" else 1500):
+        t, script, idx, sigs = gen_scenario(rng, wf=True)
+        coin = COINS[k % 5]
+        ht = rng.choice(MEANINGFUL + [0, 0x23])
+        yield PropCase("presentation", {"coin": coin, "tx": tx_json(t), "script": script.hex(), "idx": idx, "ht": ht},
+                       (lambda coin=coin, t=t, script=script, idx=idx, ht=ht: HIST.check_presentations(me, coin, t, script, idx, ht)))
 
 
 def _prop_chunk(rng, tier, use_driver, n_scen, n_fad, extras):
@@ -1027,6 +1094,18 @@ def replay_input(check, inp):
         s = bytes.fromhex(inp["script"])
         sg = [bytes.fromhex(x) for x in inp["sigs"]]
         return chk_script_code(s, inp["begin"], sg, r_script_code_base(s[inp["begin"]:], sg))
+    me = sys.modules[__name__]
+    if check == "history_vs_ref":
+        other = None
+        if inp.get("other"):
+            other = (inp["other"]["coin"], [HIST.op_unjson(o) for o in inp["other"]["ops"]])
+        return HIST.check_history(me, inp["coin"], tx_unjson(inp["tx"]), [HIST.op_unjson(o) for o in inp["ops"]], other)
+    if check == "history_pairs":
+        t = tx_unjson(inp["tx"])
+        scripts = [b"\x76\xa9\x14" + bytes([k]) * 20 + b"\x88\xac" for k in range(3)]
+        return chk_pairs(inp["coin"], t, HIST.op_unjson(inp["first"]), HIST.pair_histories(t, scripts))
+    if check == "presentation":
+        return HIST.check_presentations(me, inp["coin"], tx_unjson(inp["tx"]), bytes.fromhex(inp["script"]), inp["idx"], inp["ht"])
     return {"kind": "not-replayable-check", "check": check}
 
 
@@ -1055,6 +1134,22 @@ def search(rng, tier, disagreements, known_ids):
                         f = direct_with_pyref(t2, script, idx2, allh)
                         if f:
                             got = report(*f)
+                            if got:
+                                return got
+            elif fn == "history":
+                coin = toks[1]
+                t = tx_from_tokens(toks[2:7])
+                ops = HIST.parse_ops_token(toks[7])
+                me = sys.modules[__name__]
+                cands = [ops]
+                obs = [o for o in ops if HIST.is_observer(o)]
+                # the observations alone, reversed, and every ordered pair of them
+                cands += [obs, obs[::-1]] + [[a, b] for a in obs[:8] for b in obs[:8]]
+                for c2 in COINS:
+                    for ops2 in (cands if c2 == coin else cands[:3]):
+                        r = HIST.check_history(me, c2, t, ops2)
+                        if r:
+                            got = report("history_vs_ref", _hist_inp(c2, t, ops2), r)
                             if got:
                                 return got
             elif fn in ("delete_subscript", "delete_signature", "sighash_f_script"):
